@@ -37,7 +37,7 @@ pub fn gen_case(rng: &mut Rng, idx: usize, thorough: bool) -> Value {
     }
     let (g, texts) = eng::gen_grammar(rng, idx);
     json!({"grammar": g.to_json(), "texts": texts.iter().map(|t| crate::vocab::hex(t)).collect::<Vec<_>>(),
-           "vocab_kind": idx % 3, "canonical": idx % 5 >= 3, "seed": rng.next() % 1_000_000_000, "steps": steps})
+           "vocab_kind": (idx + idx / 3) % 3, "canonical": idx % 5 >= 3, "slices": idx % 2 == 0, "seed": rng.next() % 1_000_000_000, "steps": steps})
 }
 
 /// every token: validate on the live engine (read-only) and commit on a clone
